@@ -1103,13 +1103,20 @@ func scenC16(g *Gen, dir string) ([]*Op, func(e *Env, i int, op *Op, obs []strin
 				}
 				ids := strings.Split(fieldOf(l, "verified"), ",")
 				var cat []byte
+				taken := map[uint32]int{} // an ID may occur twice after ID tampering: k-th mention = k-th object in table order
 				for _, x := range ids {
 					var id uint32
 					if _, err := fmt.Sscan(x, &id); err != nil {
 						continue
 					}
+					skip := taken[id]
+					taken[id]++
 					e.f.WithDescriptors(func(d sif.Descriptor) bool {
 						if d.ID() == id && d.DataType() != sif.DataSignature {
+							if skip > 0 {
+								skip--
+								return false
+							}
 							b, _ := d.GetData()
 							cat = append(cat, b...)
 							return true
@@ -1352,8 +1359,13 @@ func integCampaign(prop, tier string, seed uint64, scratch string) *Result {
 	known := loadKnown()
 	var mu sync.Mutex
 	seen := map[[32]byte]bool{}
-	parallel(n, envInt("VERIF_WORKERS", 16), func(i int) {
+	corpus := corpusSeeds(prop)
+	res.Stats["corpus-cases"] = len(corpus)
+	parallel(n+len(corpus), envInt("VERIF_WORKERS", 16), func(i int) {
 		cs := seed*1000003 + uint64(i)*7919 + 1
+		if i >= n {
+			cs = corpus[i-n].seed // scenarios that exposed a seeded change before
+		}
 		dir := filepath.Join(scratch, fmt.Sprintf("c%d", i))
 		_ = os.MkdirAll(dir, 0o755)
 		defer os.RemoveAll(dir)
